@@ -225,6 +225,17 @@ CLAIMED["C30"] = dict(
          "the tensor rank silently indexes the k axis instead of raising.",
     note=TB + "; np.linalg.norm = sqrt of the sum of squares; on-grid test tolerance 1e-5 as coded")
 
+CLAIMED["C22"] = dict(
+    text="BKVectors.find_G_and_neighbours (real text) exhaustively for every mesh with 1-3 points per direction (+4x2x1), shuffled k-points "
+         "and b-vectors incl. long and negative ones: k + b = k_neighbour + G*N for every pair; incomplete meshes raise. "
+         "BKVectors.get_shell_weights (real text, real numpy, SYMBOLIC shell vectors, arbitrary shell weights through a symbolic SVD "
+         "factor): on every path that returns arrays the flattened b-vectors and weights satisfy || sum_b w_b b_i b_j - delta_ij || <= "
+         "bk_complete_tol -- the completeness relation is a proved consequence of the guard for whatever the SVD produced; weights constant "
+         "per shell, shells whole and in order, lattice/Cartesian vectors paired (two shells of 2 and 4 vectors). k_to_shells on concrete "
+         "vector sets. Closure under b -> -b with equal weights and 'whole shells of mesh vectors' are geometric and carried by a bounded "
+         "stand-in only: find_bk_vectors on 4 (quick) / 9 (thorough) lattices covering the crystal systems and 2-3 meshes.",
+    note=TB + "; np.linalg.svd treated as returning arbitrary factors (u=1, s=1, v symbolic spans all weight vectors); np.linalg.norm = Frobenius norm; is_parallel_shell receiving lattice coordinates is not examined")
+
 NOT_APPLICABLE = {
     "C20": "real-space symmetrisation is a data-dependent floating-point orbit search over irrep objects; its postcondition is only statable through an eigen-solver, no discrete/algebraic kernel is left once externals are abstracted (DESIGN section 7)",
     "C21": "rotation matrices are produced inside sympy (polynomial expansion + evalf); orthogonality/composition live in that CAS computation, outside any contract this engine can generate VCs for (DESIGN section 7)",
